@@ -217,7 +217,7 @@ Proof. intros H. rewrite forallb_forall in H. apply Forall_forall. intros x Hx. 
 Lemma apply_op_wf p o p' : pkt_wf p -> op_wf o = true -> apply_op p o = Ok p' -> pkt_wf p'.
 Proof.
   intros (Hv & Ht & Ht8 & Htw & Hc & Hm & Hk & Hpw) Ho.
-  destruct o as [v|t|c|m|t|b|k v|k vs|k|]; cbn [apply_op op_wf] in *.
+  destruct o as [v|t|c|m|t|b|k v|k vs|k| |t]; cbn [apply_op op_wf] in *.
   - intros [= <-]. unfold pkt_wf, set_hdr, set_version. cbn [hdr vtt code mid token opts payload].
     repeat split; auto; lia.
   - intros [= <-]. unfold pkt_wf, set_hdr, set_type. cbn [hdr vtt code mid token opts payload].
@@ -248,6 +248,10 @@ Proof.
   - intros [= <-]. unfold pkt_wf, clear_option, set_opts. cbn [hdr vtt code mid token opts payload]. repeat split; auto.
     unfold opt_clear. destruct (opt_get (opts p) k); [|exact Hk]. apply opt_insert_keys; auto; lia.
   - intros [= <-]. unfold pkt_wf, clear_all_options, set_opts. cbn [hdr vtt code mid token opts payload]. repeat split; auto.
+  - apply andb_true_iff in Ho. destruct Ho as (Ho1 & Ho2). apply forallb_bytes_wf in Ho2.
+    unfold set_token, set_token_length, set_hdr, header_new. cbn [hdr vtt code mid token opts payload].
+    replace (len t mod 256 <? 16) with true by lia. cbn [bind]. intros [= <-].
+    unfold pkt_wf. cbn [hdr vtt code mid token opts payload class_to_byte]. repeat split; auto; try lia.
 Qed.
 
 Lemma packet_new_wf : pkt_wf packet_new.
@@ -268,8 +272,8 @@ Proof.
   induction ops as [|o ops IH]; intros p Ho; cbn [run_ops]; [eauto|].
   cbn [ops_wf forallb] in Ho. apply andb_true_iff in Ho. destruct Ho as (Ho1 & Ho2).
   assert (exists p1, apply_op p o = Ok p1) as (p1 & ->).
-  { destruct o; cbn [apply_op]; eauto. cbn [op_wf] in Ho1. apply andb_true_iff in Ho1. destruct Ho1 as (A & _).
-    unfold set_token, set_token_length. replace (len t mod 256 <? 16) with true by lia. cbn [bind]. eauto. }
+  { destruct o; cbn [apply_op]; eauto; cbn [op_wf] in Ho1; apply andb_true_iff in Ho1; destruct Ho1 as (A & _);
+    unfold set_token, set_token_length; replace (len t mod 256 <? 16) with true by lia; cbn [bind]; eauto. }
   cbn [bind]. apply IH. exact Ho2.
 Qed.
 
